@@ -47,12 +47,13 @@ def sampling1 (op : Nat) : Bool := covered1 op && !(8 ≤ op && op ≤ 15) && !(
 theorem one_byte_to_end (c : Core) (a : Arch) (h : AtFetch c a) (op : Nat) (hs : sampling1 op = true)
     (hop : a.bus.read a.pc = BitVec.ofNat 8 op) :
     ∃ n a', Isa.step a = some a' ∧ AtEnd (Core.iter n c) a' ∧ (Core.iter n c).pendInt = c.pendInt := by
-  simp only [sampling1, covered1, definedFirst, isMul, isDiv, Bool.and_eq_true, Bool.not_eq_true',
+  simp only [sampling1, covered1, definedFirst, Bool.and_eq_true, Bool.not_eq_true',
     Bool.or_eq_false_iff, Bool.and_eq_false_iff, decide_eq_true_eq, decide_eq_false_iff_not] at hs
   have hpage : op ≤ 7 ∨ (16 ≤ op ∧ op ≤ 31) ∨ (32 ≤ op ∧ op ≤ 43) ∨ (48 ≤ op ∧ op ≤ 63) ∨ (64 ≤ op ∧ op ≤ 75) ∨
       (80 ≤ op ∧ op ≤ 95) ∨ (96 ≤ op ∧ op ≤ 111) ∨ (112 ≤ op ∧ op ≤ 127) ∨ (128 ≤ op ∧ op ≤ 143) ∨
-      (144 ≤ op ∧ op ≤ 159) ∨ (160 ≤ op ∧ op ≤ 175) ∨ (208 ≤ op ∧ op ≤ 223) := by omega
-  rcases hpage with hp | hp | hp | hp | hp | hp | hp | hp | hp | hp | hp | hp
+      (144 ≤ op ∧ op ≤ 159) ∨ (160 ≤ op ∧ op ≤ 175) ∨ (208 ≤ op ∧ op ≤ 223) ∨ (176 ≤ op ∧ op ≤ 191) ∨
+      (192 ≤ op ∧ op ≤ 207) := by omega
+  rcases hpage with hp | hp | hp | hp | hp | hp | hp | hp | hp | hp | hp | hp | hp | hp
   · exact endpage_0 c a h op (by omega) hop
   · exact endpage_1 c a h op (by omega) hop
   · exact endpage_2 c a h op (by omega) hop
@@ -65,6 +66,8 @@ theorem one_byte_to_end (c : Core) (a : Arch) (h : AtFetch c a) (op : Nat) (hs :
   · exact endpage_9 c a h op (by omega) hop
   · exact endpage_A c a h op (by omega) hop
   · exact endpage_D c a h op (by omega) hop
+  · exact endpage_B c a h op hp hop
+  · exact endpage_C c a h op hp hop
 
 theorem second_to_end (c : Core) (a : Arch) (v : Byte) (h : AtSecond c a v) (b : Nat)
     (hd : definedSecond b = true) (hop : a.bus.read a.pc = BitVec.ofNat 8 b) :
